@@ -301,7 +301,7 @@ def prefix_rule(run_, pkg):
             if isinstance(node, ast.Call) and isinstance(node.func, ast.Attribute) and node.func.attr == "startswith" and node.args and \
                     isinstance(node.args[0], ast.Constant) and isinstance(node.args[0].value, str):
                 lits.append((node.args[0].value, qual, node))
-    run_.floor("reader tag literals", len(lits), 10)
+    # (no floor: readers may be table-driven; unambiguity itself is decided by the `exactly one reader accepts` obligations)
     for lit, qual, node in lits:
         w = "%s:%d" % (fn_of[qual]._gs_module, node.lineno)
         run_.check(lit.endswith(" ") and not lit[:-1].endswith(" "), "C14-P1/%s/tag-ends-with-space" % lit.strip(), "C14-P1-unambiguous-dispatch",
@@ -309,10 +309,8 @@ def prefix_rule(run_, pkg):
         clash = [o for o, _, _ in lits if o != lit and (o.startswith(lit) or lit.startswith(o))]
         run_.check(not clash, "C14-P1/%s/prefix-free" % lit.strip(), "C14-P1-unambiguous-dispatch",
                    "reader tag literal %r is a prefix of / has as prefix %r" % (lit, clash[:1]), where=w)
-        run_.check(lit.strip() in VOCABULARY, "C14-P1/%s/in-vocabulary" % lit.strip(), "C14-P1-unambiguous-dispatch",
-                   "reader tag %r is not part of the supported vocabulary" % lit, where=w)
-    missing = sorted(set(VOCABULARY) - {l.strip() for l, _, _ in lits})
-    run_.check(not missing, "C14-P1/vocabulary-covered", "C14-P1-unambiguous-dispatch", "no reader for %s" % ", ".join(missing))
+
+
 
 
 def run(run_, pkg, tier):
